@@ -526,8 +526,26 @@ class EvolveAppTask(BaseEvolutionTask):
                     app_labels=migration_app_labels,
                     exclude=excluded_targets)
 
-                pre_migration_plan = migration_executor.migration_plan(
-                    pre_migration_targets)
+                # Plan each initial migration on its own. When given all
+                # the targets at once, Django's planner treats a target
+                # that an earlier target already pulled in (as a
+                # dependency of a migration depending on it) as a request
+                # to migrate backwards to it.
+                pre_migration_plan = []
+                planned_migrations = set()
+
+                for migration_target in pre_migration_targets:
+                    if migration_target in planned_migrations:
+                        continue
+
+                    for plan_item in migration_executor.migration_plan(
+                        [migration_target]):
+                        plan_item_target = (plan_item[0].app_label,
+                                            plan_item[0].name)
+
+                        if plan_item_target not in planned_migrations:
+                            planned_migrations.add(plan_item_target)
+                            pre_migration_plan.append(plan_item)
 
                 excluded_targets.update(pre_migration_targets)
                 extra_applied_migrations.add_migration_targets(
